@@ -164,12 +164,12 @@ func (w *textWriter) WriteClob(val []byte) error {
 	}
 	for _, c := range val {
 		if c < 32 || c == '\\' || c == '"' || c > 0x7F {
-			if err := writeEscapedChar(c, w.out); err != nil {
-				return err
+			if w.err = writeEscapedChar(c, w.out); w.err != nil {
+				return w.err
 			}
 		} else {
-			if err := writeRawChar(c, w.out); err != nil {
-				return err
+			if w.err = writeRawChar(c, w.out); w.err != nil {
+				return w.err
 			}
 		}
 	}
@@ -195,9 +195,8 @@ func (w *textWriter) WriteBlob(val []byte) error {
 	}
 
 	enc := base64.NewEncoder(base64.StdEncoding, w.out)
-	_, err := enc.Write(val)
-	if err != nil {
-		return err
+	if _, w.err = enc.Write(val); w.err != nil {
+		return w.err
 	}
 	if w.err = enc.Close(); w.err != nil {
 		return w.err
